@@ -7,7 +7,7 @@ SPEC = {
             "saved state) x a further variable defined before step A for every A (every 7th case also with the velocity column flipped from "
             "the script interface before every step T) x value words of length 4 (thorough 5) over 3 values (quick: "
             "covering selection; thorough: the full menu product on every 9th word, and all 243 words on 6 flag subsets - "
-            "the full product would be 4.2 million module runs with file output); analysis part: ALL value words of length 7 "
+            "the full product would be 4.2 million module runs with file output); ALB part: all 16 subsets of the 4 optional columns of an adaptive linear bias over 7 steps, every value under its label compared with the bias; analysis part: ALL value words of length 7 "
             "over 3 (thorough 4) values for the scalar variable and over 3 values for the 3-vector variable, each run with 4 "
             "running-average and 24 correlation-function parameter tuples (coordinate type; coordinate_p2 for the vector; cross-correlation with "
             "a second variable b = d^2 for the scalar), every 5th scalar word also as a run starting at step 100; states = distinct output file contents, transitions = Colvars steps; "
